@@ -63,7 +63,7 @@ pub fn shipped_src<P: SWCurveConfig>() -> Src<P> {
                 // a point of small prime order l | h, or the whole cofactor-torsion component of R
                 let (tors, small) = if !ells.is_empty() && (cls == 4 || cls == 6) {
                     let l = ells[t.idx(ells.len())];
-                    (ref_mul(&rr, &(&n / BigUint::from(l))), true)
+                    (order_l_component::<P>(&rr, &n, l), true)
                 } else {
                     (ref_mul(&rr, &r), false)
                 };
@@ -74,6 +74,59 @@ pub fn shipped_src<P: SWCurveConfig>() -> Src<P> {
                     (tors.into_affine(), if small { "P=small-order" } else { "P=torsion" })
                 }
             },
+        }
+    })
+}
+
+/// The l-primary component of `r` pushed down to order l: (n / l^v) * R lies in the l-Sylow subgroup (l^v || n);
+/// multiplying by l while the result stays non-zero leaves an element of order exactly l (or the identity).
+/// (Multiplying by n / l instead would kill the whole l-part whenever the l-torsion is not cyclic.)
+fn order_l_component<P: SWCurveConfig>(rr: &Projective<P>, n: &BigUint, l: u64) -> Projective<P> {
+    let lb = BigUint::from(l);
+    let mut e = n.clone();
+    while (&e % &lb).is_zero() {
+        e /= &lb;
+    }
+    let mut t = ref_mul(rr, &e);
+    loop {
+        let next = ref_mul(&t, &lb);
+        if next.is_zero() {
+            return t;
+        }
+        t = next;
+    }
+}
+
+/// Points whose cofactor component runs over *all* of E[l] (not just one random element of it): for a small prime
+/// l | h, T = a*T1 + b*T2 with T1, T2 the order-l components of two fixed curve points and (a, b) from the tape.
+/// When l^2 | h the l-torsion can be two-dimensional and an endomorphism-based membership test can be wrong on a
+/// single eigenline only; enumerating (a, b) reaches every line.
+pub fn torsion_src<P: SWCurveConfig>() -> Src<P> {
+    let r = modulus_of::<P::ScalarField>();
+    let h = cofactor_of::<P>();
+    let ells = small_prime_factors(&h);
+    let n = &r * &h;
+    let fixed = |seed: u64| -> Projective<P> {
+        let words = [seed, 0];
+        let mut t = Tape::new(&words, false);
+        from_x::<P>(&mut t).into()
+    };
+    let (r1, r2) = (fixed(0x5eed_0001), fixed(0x5eed_0002));
+    Arc::new(move |t| {
+        if ells.is_empty() {
+            return (from_x::<P>(t), "P=from-x");
+        }
+        let l = ells[t.idx(ells.len())];
+        let (t1, t2) = (order_l_component::<P>(&r1, &n, l), order_l_component::<P>(&r2, &n, l));
+        let a = t.below(l);
+        let b = t.below(l);
+        let tors = ref_mul(&t1, &BigUint::from(a)) + ref_mul(&t2, &BigUint::from(b));
+        if t.bool() {
+            let g = Projective::<P>::generator();
+            let s = ref_mul(&g, &big_below(t, &r));
+            ((s + tors).into_affine(), "P=subgroup+l-torsion-combination")
+        } else {
+            (tors.into_affine(), "P=l-torsion-combination")
         }
     })
 }
